@@ -329,6 +329,8 @@ type vRun struct {
 	maxc     map[int]int
 	diffs    map[string]*vDiff // open cross-store differences by id
 	names    map[string]bool   // every channel name seen so far
+	// free channels renamed (successfully) through a gateway that is not the bootstrapper
+	renamedViaPeer map[channel.Key]bool
 	viol     []vViol
 	seen     map[string]bool
 	stats    map[string]int
@@ -341,6 +343,9 @@ type vDiff struct {
 	sig, what string
 	step      int
 	reported  bool
+	// left behind by a FAILED multi-call transaction (two CreateMany in one WithTx): the
+	// property quantifies over single requests, so these are counted, not judged
+	tolerated bool
 }
 
 func (r *vRun) specKey(k channel.Key) vKey {
@@ -773,7 +778,7 @@ func vReplay(ctx context.Context, h vHist, timeout time.Duration) (out vOut) {
 	}
 	r := &vRun{ctx: ctx, c: c, n: h.Nodes, base: map[int]int{}, baseKeys: map[channel.Key]bool{},
 		keyOf: map[string]channel.Key{}, everUsed: map[channel.Key]int{}, gone: map[channel.Key]string{},
-		maxc: map[int]int{}, diffs: map[string]*vDiff{}, names: map[string]bool{}, seen: map[string]bool{}, stats: map[string]int{},
+		maxc: map[int]int{}, diffs: map[string]*vDiff{}, names: map[string]bool{}, renamedViaPeer: map[channel.Key]bool{}, seen: map[string]bool{}, stats: map[string]int{},
 		timeout: timeout, idxWait: vIdxWait}
 	// baseline: the channels every node creates for itself at start-up
 	m0, err := r.quiesce()
@@ -884,6 +889,13 @@ func vReplay(ctx context.Context, h vHist, timeout time.Duration) (out vOut) {
 		if s.T == "rename" && ok {
 			for _, e := range s.Ents {
 				r.keyOf[e.New] = r.keyOf[e.Name]
+				if k := r.keyOf[e.Name]; k.Free() {
+					if s.G != 1 {
+						r.renamedViaPeer[k] = true
+					} else {
+						delete(r.renamedViaPeer, k)
+					}
+				}
 			}
 		}
 		// keys newly present in metadata must be fresh too (whoever returned them)
@@ -927,6 +939,11 @@ func vReplay(ctx context.Context, h vHist, timeout time.Duration) (out vOut) {
 				}
 			}
 			how := "user"
+			for _, ch := range chs {
+				if _, existed := r.prevMeta[ch.Key()]; existed && r.renamedViaPeer[ch.Key()] && s.G == 1 {
+					how = "collides-with-free-channel-renamed-via-non-bootstrapper"
+				}
+			}
 			if auto >= 2 {
 				how = "auto-index-created-twice"
 			} else if auto == 1 {
@@ -945,8 +962,8 @@ func vReplay(ctx context.Context, h vHist, timeout time.Duration) (out vOut) {
 		now := map[string]bool{}
 		open := func(id, sig, what string) {
 			now[id] = true
-			if _, ok := r.diffs[id]; !ok {
-				r.diffs[id] = &vDiff{sig: sig, what: what, step: step}
+			if _, seen := r.diffs[id]; !seen {
+				r.diffs[id] = &vDiff{sig: sig, what: what, step: step, tolerated: s.Cut > 0 && !ok}
 			}
 		}
 		// other-lease: the request has an entry of that name on a different leaseholder
@@ -1027,6 +1044,10 @@ func vReplay(ctx context.Context, h vHist, timeout time.Duration) (out vOut) {
 				continue
 			}
 			r.stats["crossstore-diff-steps"]++
+			if d.tolerated {
+				r.stats["tolerated-chained-tx-leftovers"]++
+				continue
+			}
 			// judged after successful requests (the statement's antecedent)
 			if ok && s.T != "restart" && !d.reported {
 				d.reported = true
@@ -1043,6 +1064,21 @@ func vReplay(ctx context.Context, h vHist, timeout time.Duration) (out vOut) {
 				if _, still := auth[key]; !still && !ch.Internal {
 					r.gone[key] = vKind(ch) + " after=" + after + xlease(ch.Name, key)
 				}
+			}
+		}
+		if ok && s.T == "delete" {
+			// what a successful delete was asked to delete is deleted, whatever is observed
+			for _, e := range s.Ents {
+				if ch, was := r.prevMeta[r.keyOf[e.Name]]; was && !ch.Internal {
+					r.gone[ch.Key()] = vKind(ch) + " after=" + after
+				}
+			}
+		}
+		for key := range r.gone {
+			_, back := auth[key]
+			_, was := r.prevMeta[key]
+			if back && !was {
+				delete(r.gone, key) // re-created under a reused key: the KeysUnique clause reports that
 			}
 		}
 		for key, kind := range r.gone {
@@ -1139,7 +1175,7 @@ func vReplay(ctx context.Context, h vHist, timeout time.Duration) (out vOut) {
 	out.Stats = r.stats
 	out.Stats["steps"] = len(h.Steps)
 	for _, d := range r.diffs {
-		if !d.reported {
+		if !d.reported && !d.tolerated {
 			out.Pending = append(out.Pending, vViol{Sig: d.sig, What: d.what, Step: d.step})
 		}
 	}
